@@ -441,6 +441,7 @@ pub fn execute(exe: &Path, sc: &BScenario, dir: &Path) -> BReport {
                     prelude: vec![],
                     lex_probe: None,
                     src_dir_mode: None,
+                    cwd: None,
                 };
                 let (code, sig, res) = run_build_child_sig(exe, &mk_spec(&py, &pl, fault), dir, "b");
                 let crashed = sig.is_some() || (code != Some(0));
@@ -886,6 +887,7 @@ fn execute_layouts(exe: &Path, sc: &BScenario, dir: &Path) -> BReport {
             prelude: vec![],
             lex_probe: None,
             src_dir_mode: Some((krate.to_str().unwrap().into(), out_dir.to_str().unwrap().into())),
+            cwd: None,
         };
         rep.builds += 1;
         let (code, _sig, res) = run_build_child_sig(exe, &spec(&out), dir, "b");
